@@ -23,7 +23,8 @@ def native_plan(tier):
     dir_dom = 'the union-find alone (index_insert = EqRel::add on `combined`): every history of <= 5 add(a, b) over the 30 ordered pairs a != b of 6 items; contains_key on all 36 pairs, the [0] lookup of every element and count_exact after every add'
     direct = ('eqrel_direct_le5', ';'.join(['0-30'] * 5), dir_dom)
     if tier == 'thorough':
-        return [direct, ('eqrel_protocol_le5', ';'.join(['0-18'] * 5), bin_dom % 5), ('eqrel_ternary_protocol_le5', ';'.join(['0-20'] * 5), ter_dom % 5)]
+        return [('eqrel_direct_le6', ';'.join(['0-30'] * 6), dir_dom.replace('<= 5', '<= 6')), ('eqrel_protocol_le6', ';'.join(['0-18'] * 6), bin_dom % 6),
+                ('eqrel_ternary_protocol_le6', ';'.join(['0-20'] * 6), ter_dom % 6)]
     return [direct, ('eqrel_protocol_le4', ';'.join(['0-18'] * 4), bin_dom % 4), ('eqrel_ternary_protocol_le4', ';'.join(['0-20'] * 4), ter_dom % 4)]
 
 
@@ -39,11 +40,13 @@ def run(pid, tier):
             crate, _ = unit_uf.prepare_crate()
             binary, _ = kani.build_native(crate, 'ufcheck')
             def one(p):
-                to = 300 if tier == 'quick' else 2400
-                if p[0].startswith('eqrel_direct') or tier == 'thorough':
-                    return p, kani.native_exhaust_sharded(binary, p[0], p[1], shards=10 if p[0].startswith('eqrel_direct') else 6, timeout=to)
+                to = 300 if tier == 'quick' else 7200
+                if tier == 'thorough':
+                    return p, kani.native_exhaust_sharded(binary, p[0], p[1], shards=16, timeout=to)
+                if p[0].startswith('eqrel_direct'):
+                    return p, kani.native_exhaust_sharded(binary, p[0], p[1], shards=10, timeout=to)
                 return p, kani.native_exhaust(binary, p[0], p[1], timeout=to)
-            with ThreadPoolExecutor(max_workers=3) as ex2:
+            with ThreadPoolExecutor(max_workers=3 if tier == 'quick' else 1) as ex2:
                 for (h, alpha, dom), r in ex2.map(one, native_plan(tier)):
                     native[h] = dict(r, domain=dom)
                     for f in r['failures']:
@@ -122,4 +125,7 @@ def run(pid, tier):
         'code are not covered',
         'machine arithmetic: sets.len() < usize::MAX is a precondition of add',
     ]
+    if tier == 'thorough' and v.get('path') and v['status'] == 'ok':
+        import os
+        out.coverage['proof_stability_under_smt_seeds'] = {os.path.basename(v['path']): common.stability_sweep(v['path'], seeds=(1, 2, 3, 4, 5))}
     return out.finish()
